@@ -1,6 +1,7 @@
 package main
 
 import (
+	"encoding/json"
 	"flag"
 	"fmt"
 	"os"
@@ -44,6 +45,11 @@ func main() {
 	case "checkall":
 		// self-test helper (seed matrix, neutral refactors): one load, every check
 		os.Exit(cmdCheckAll(os.Args[2:]))
+	case "baseline":
+		// regenerate anchors_baseline.json from the current tree (maintenance; rebuild afterwards)
+		os.Exit(cmdBaseline(os.Args[2:]))
+	case "devrename":
+		os.Exit(devRename(os.Args[2:]))
 	case "list":
 		var ids []string
 		for id := range registry {
@@ -176,3 +182,26 @@ func envOr(k, d string) string {
 
 // thoroughArchs lists the additional GOARCH loads of the thorough tier.
 var thoroughArchs = map[string][]string{}
+
+func cmdBaseline(args []string) int {
+	out := "anchors_baseline.json"
+	if len(args) > 0 {
+		out = args[0]
+	}
+	bl := anchorBaseline{Arch: map[string]map[string]*entDesc{}}
+	for _, a := range []string{"amd64", "arm64", "arm"} {
+		p, _, err := loadOnce(RepoDir(), a, nil)
+		if err != nil {
+			fmt.Fprintln(os.Stderr, err)
+			return 2
+		}
+		bl.Arch[a] = stripForBaseline(describeEntities(p.Pkgs, nil, nil))
+		fmt.Fprintf(os.Stderr, "%s: %d declarations\n", a, len(bl.Arch[a]))
+	}
+	b, _ := json.MarshalIndent(bl, "", " ")
+	if err := os.WriteFile(out, append(b, '\n'), 0o644); err != nil {
+		fmt.Fprintln(os.Stderr, err)
+		return 2
+	}
+	return 0
+}
